@@ -328,6 +328,106 @@ def treeCache (root : Item ι V) (limit : Nat) : Option Nat → Option (Item ι 
 
 end
 
+/-! ### The structural invariant (decidable; evaluated by the driver on every tree it builds and
+compared, through the snapshot hook, with the real tree) -/
+
+section
+variable {ι V : Type} [DecidableEq ι]
+
+/-- Siblings under a node whose prefix has `n` chars: pairwise, the scanner finds no common boundary
+prefix longer than `n`, and their `regex()` differ. -/
+def sibOk (n : Nat) : List (List Char) → Bool
+  | [] => true
+  | r :: rs => rs.all (fun r' => decide (commonPrefixCharSize r r' ≤ n) && decide (r ≠ r')) && sibOk n rs
+
+/-- Keys of a leaf map are unique. -/
+def nodupKeys : List (ι × V) → Bool
+  | [] => true
+  | kv :: rest => rest.all (fun kv' => decide (kv'.1 ≠ kv.1)) && nodupKeys rest
+
+/-- A child of a node with prefix `q`: not `Empty`; `q` is a boundary prefix of its `regex()`;
+a child node has a strictly longer prefix. -/
+def childOk (q : List Char) : Item ι V → Bool
+  | .empty _ => false
+  | .leaf rx _ => bpre q rx.original
+  | .node rx _ => bpre q rx.original && decide (q.length < rx.original.length)
+
+mutual
+/-- `Inv ic t`. -/
+def Item.inv (ic : Bool) : Item ι V → Bool
+  | .empty ic' => ic' == ic
+  | .leaf rx vs => rx.isLeaf && rx.ic == ic && !vs.isEmpty && nodupKeys vs
+  | .node rx cs =>
+    !rx.isLeaf && rx.ic == ic && (scan b0 rx.original).atBoundary && decide (2 ≤ cs.length) &&
+      cs.all (childOk rx.original) && sibOk rx.original.length (cs.map Item.regex) && invL ic cs
+def invL (ic : Bool) : List (Item ι V) → Bool
+  | [] => true
+  | c :: cs => Item.inv ic c && invL ic cs
+end
+
+/-! ### Reference semantics: the flat list of live entries -/
+
+/-- insert: replace the value stored under the same (pattern, id), else append. -/
+def refInsert : List (Entry ι V) → List Char → ι → V → List (Entry ι V)
+  | [], p, id, v => [⟨p, id, v⟩]
+  | e :: rest, p, id, v =>
+    if e.pat = p ∧ e.id = id then ⟨p, id, v⟩ :: rest else e :: refInsert rest p id v
+
+/-- remove(id): drop the first entry with that id (unique when an id determines its pattern). -/
+def refRemove : List (Entry ι V) → ι → List (Entry ι V)
+  | [], _ => []
+  | e :: rest, id => if e.id = id then rest else e :: refRemove rest id
+
+def refRemoved : List (Entry ι V) → ι → Option V
+  | [], _ => none
+  | e :: rest, id => if e.id = id then some e.val else refRemoved rest id
+
+def refRetain (L : List (Entry ι V)) (f : ι → V → Bool) : List (Entry ι V) :=
+  L.filter fun e => f e.id e.val
+
+/-- The operations of the property's histories. -/
+inductive Op (ι V : Type) where
+  | insert (p : List Char) (id : ι) (v : V)
+  | remove (id : ι)
+  | retain (f : ι → V → Bool)
+  | cache (limit : Nat) (level : Option Nat)
+
+def refStep (L : List (Entry ι V)) : Op ι V → List (Entry ι V)
+  | .insert p id v => refInsert L p id v
+  | .remove id => refRemove L id
+  | .retain f => refRetain L f
+  | .cache _ _ => L
+
+/-- One operation on the tree (`RegexTreeMap::{insert,remove,retain,cache}`); `none` only if `cache`
+underflowed or did not terminate – never, by `Props/C12.lean`. -/
+def treeStep (E : Engine) (t : Item ι V) : Op ι V → Option (Item ι V)
+  | .insert p id v => some (t.insert p id v)
+  | .remove id => some (t.remove id).1
+  | .retain f => some (t.retain f)
+  | .cache limit level => (treeCache E t limit level).map (·.1)
+
+def treeRun (E : Engine) : Item ι V → List (Op ι V) → Option (Item ι V)
+  | t, [] => some t
+  | t, op :: ops =>
+    match treeStep E t op with
+    | none => none
+    | some t' => treeRun E t' ops
+
+def refRun : List (Entry ι V) → List (Op ι V) → List (Entry ι V)
+  | L, [] => L
+  | L, op :: ops => refRun (refStep L op) ops
+
+/-- Domain of the histories (hypotheses of `history_spec`), relative to the live entries `L`:
+every inserted pattern satisfies `good`, and an id in use determines its pattern. -/
+def histOk (good : List Char → Bool) : List (Entry ι V) → List (Op ι V) → Bool
+  | _, [] => true
+  | L, op :: ops =>
+    (match op with
+     | .insert p id _ => good p && L.all (fun e => decide (e.id = id → e.pat = p))
+     | _ => true) && histOk good (refStep L op) ops
+
+end
+
 /-! ### `UniqueRegexTreeMap` (`tree.rs`): the id of a value is its pattern -/
 
 section
